@@ -2,7 +2,12 @@
 package c10
 
 import (
+	"context"
+	"fmt"
 	"testing"
+
+	"github.com/hashicorp/eventlogger"
+	wrapping "github.com/hashicorp/go-kms-wrapping/v2"
 
 	"pgregory.net/rapid"
 	"verif/harness/internal/encrun"
@@ -79,4 +84,63 @@ func splitUnder(s string) []string {
 		out = append(out, cur)
 	}
 	return out
+}
+
+// ---------------------------------------------------------------------------
+// "with all operations overridden to none ... the event is forwarded unchanged" also holds for payloads
+// that implement the control interfaces (RotateWrapper, EventWrapperInfo).
+
+type rotP struct {
+	w          wrapping.Wrapper
+	salt, info []byte
+	Secret     string `class:"secret"`
+}
+
+func (r *rotP) Wrapper() wrapping.Wrapper { return r.w }
+func (r *rotP) HmacSalt() []byte          { return r.salt }
+func (r *rotP) HmacInfo() []byte          { return r.info }
+
+type ewiP struct {
+	id   string
+	A    string `class:"sensitive"`
+	salt []byte
+}
+
+func (e *ewiP) EventId() string  { return e.id }
+func (e *ewiP) HmacSalt() []byte { return e.salt }
+func (e *ewiP) HmacInfo() []byte { return nil }
+
+func TestC10AllNoneSpecial(t *testing.T) {
+	sec := stats.Sec("all_none_special", "rapid: every operation overridden to none x payloads implementing RotateWrapper (any subset of wrapper/salt/info) or EventWrapperInfo (ids incl. \"\"), filter with or without a wrapper; oracle = Process returns the very event it was given, without error, and the filter's wrapper/salt/info are untouched; non-trivial = every case; distinct = case descriptor")
+	rapid.Check(t, func(t *rapid.T) {
+		c := encrun.FCfg{Overrides: map[string]string{"public": "", "sensitive": "", "secret": ""}, Wrapper: rapid.SampledFrom([]string{"ok", "absent"}).Draw(t, "wrapper"), Salt: rapid.Bool().Draw(t, "salt")}
+		f := c.Filter()
+		w0, s0 := f.Wrapper, string(f.HmacSalt)
+		var payload interface{}
+		desc := c.String()
+		if rapid.Bool().Draw(t, "rotation") {
+			r := &rotP{Secret: "s"}
+			if rapid.Bool().Draw(t, "w") {
+				r.w = encrun.Key.Wrapper()
+			}
+			if rapid.Bool().Draw(t, "s") {
+				r.salt = []byte("s2")
+			}
+			payload = r
+			desc += fmt.Sprintf(" rotation-payload{wrapper=%v salt=%v}", r.w != nil, r.salt != nil)
+		} else {
+			e := &ewiP{id: rapid.SampledFrom([]string{"ev-1", ""}).Draw(t, "id"), A: "a"}
+			payload = e
+			desc += fmt.Sprintf(" event-wrapper-payload{id=%q}", e.id)
+		}
+		in := &eventlogger.Event{Type: "t", Payload: payload}
+		out, err := f.Process(context.Background(), in)
+		if err != nil || out != in {
+			t.Fatalf("VIOLATION C10: with every operation overridden to none the event must be forwarded unchanged, got (same event=%v, err=%v)\ncase: %s", out == in, err, desc)
+		}
+		if f.Wrapper != w0 || string(f.HmacSalt) != s0 {
+			t.Fatalf("VIOLATION C10: a pass-through filter changed its own keys\ncase: %s", desc)
+		}
+		sec.Case(true, desc, "all_none_special")
+	})
 }
